@@ -32,6 +32,9 @@ type Fault struct {
 	Kind    string
 }
 
+// HalfRead as Fault.Partial of a read fault: the first half of the file is returned together with the error.
+const HalfRead = -2
+
 // ErrInjected is the injected non-not-exist I/O error.
 var ErrInjected = errors.New("injected I/O error")
 
@@ -146,6 +149,16 @@ func (fs *FS) ReadFile(path string) ([]byte, error) {
 		op.Err = f.Err.Error()
 		op.Fault = f.Kind
 		fs.Log = append(fs.Log, op)
+		if b, ok := fs.Files[path]; ok && f.Partial == HalfRead && len(b) > 0 {
+			// a read that dies half-way: like ioutil.ReadFile, the bytes read so far come back WITH the error
+			n := (len(b) + 1) / 2
+			buf := make([]byte, n+spareCap)
+			copy(buf, b[:n])
+			for i := n; i < len(buf); i++ {
+				buf[i] = 0xA5 ^ byte(i*7)
+			}
+			return buf[:n], f.Err
+		}
 		return nil, f.Err
 	}
 	if fs.isDir(path) {
